@@ -130,7 +130,9 @@ impl Stats {
             e.1 += v.1;
         }
         for s in o.samples {
-            if self.samples.len() < 12 {
+            let stream = s.get("stream").and_then(|x| x.as_str()).unwrap_or("").to_string();
+            let have = self.samples.iter().filter(|x| x.get("stream").and_then(|y| y.as_str()).unwrap_or("") == stream).count();
+            if have < 3 && self.samples.len() < 24 {
                 self.samples.push(s);
             }
         }
@@ -420,6 +422,24 @@ impl Ctx {
         }
         if self.stop.load(Ordering::SeqCst) {
             return;
+        }
+        if self.is_worker {
+            if let Some(spec) = &self.worker_spec {
+                if let Some(ws) = spec.get("stream").and_then(|x| x.as_str()) {
+                    if ws != stream {
+                        return;
+                    }
+                    let n = spec.get("cases").and_then(|x| x.as_u64()).unwrap_or(0) as u32;
+                    let tidx = spec.get("tidx").and_then(|x| x.as_u64()).unwrap_or(0);
+                    if tidx == 0 {
+                        self.run_saved_replays::<T, F>(stream, &f);
+                    }
+                    if n > 0 && !self.stop.load(Ordering::SeqCst) {
+                        self.run_one_runner(stream, n, tidx, strat(), &f);
+                    }
+                    return;
+                }
+            }
         }
         self.run_saved_replays::<T, F>(stream, &f);
         if self.stop.load(Ordering::SeqCst) || cases == 0 {
@@ -711,6 +731,17 @@ pub fn install_quiet_panic_hook() {
     }));
 }
 
+/// signature of a panic: "panic:<source file name>:<message head>" (no line numbers, they move)
+pub fn panic_signature(msg: &str) -> String {
+    let (m, loc) = match msg.rfind(" @ ") {
+        Some(i) => (&msg[..i], &msg[i + 3..]),
+        None => (msg, ""),
+    };
+    let file = loc.rsplit('/').next().unwrap_or("").split(':').next().unwrap_or("");
+    let head: String = m.chars().filter(|c| c.is_ascii_alphanumeric() || *c == ' ' || *c == '_').take(40).collect();
+    format!("panic:{}:{}", file, head.trim().replace(' ', "_"))
+}
+
 /// Runs the oracle closure, turning a panic into an `Err` that carries message and location.
 pub fn run_guarded<F: FnOnce() -> Result<(), String>>(f: F) -> Result<(), String> {
     match std::panic::catch_unwind(std::panic::AssertUnwindSafe(f)) {
@@ -726,7 +757,7 @@ pub fn run_guarded<F: FnOnce() -> Result<(), String>>(f: F) -> Result<(), String
                     "<panic>".to_string()
                 }
             });
-            Err(format!("[sig:panic] panic in code under test: {msg}"))
+            Err(format!("[sig:{}] panic in code under test: {msg}", panic_signature(&msg)))
         },
     }
 }
@@ -852,6 +883,51 @@ impl Ctx {
         let mut r = results.into_inner().unwrap();
         r.sort_by_key(|(i, _)| *i);
         r.into_iter().map(|(_, r)| r).collect()
+    }
+
+    /// Parent side of a stream explored in `n` single-runner child processes (crash / allocation /
+    /// configuration isolation). A child that dies leaves its current case in the journal; that
+    /// case becomes the replay of a violation with signature `worker-died:<marker>`.
+    pub fn explore_workers(&self, stream: &str, cases: u32, n: u32, env: &BTreeMap<String, String>, timeout: Duration) {
+        if self.stop.load(Ordering::SeqCst) {
+            return;
+        }
+        let n = n.max(1).min(cases.max(1));
+        let jobs: Vec<Job> = (0..n)
+            .map(|t| Job {
+                name: format!("{stream}#{t}"),
+                env: env.clone(),
+                spec: json!({"stream": stream, "cases": cases / n + if t < cases % n { 1 } else { 0 }, "tidx": t}),
+                timeout,
+            })
+            .collect();
+        let results = self.run_jobs(jobs, 16);
+        self.absorb_with_journal(stream, results);
+    }
+
+    pub fn absorb_with_journal(&self, stream: &str, results: Vec<JobResult>) {
+        let mut rest = Vec::new();
+        for r in results {
+            let died = !r.timed_out && (r.signal.is_some() || r.stats.is_none());
+            if died && !r.journal.trim().is_empty() {
+                let marker = if r.stderr_tail.contains("ALLOC-CAP") {
+                    "alloc-cap".to_string()
+                } else if let Some(sig) = r.signal {
+                    format!("signal-{sig}")
+                } else {
+                    format!("exit-{:?}", r.status)
+                };
+                let case: Value = serde_json::from_str(&r.journal).unwrap_or(Value::String(r.journal.clone()));
+                self.report_failure(
+                    stream,
+                    case,
+                    &format!("[sig:worker-died:{marker}] the process running this case died ({marker}); stderr tail: {}", truncate_tail(&r.stderr_tail, 600)),
+                );
+            } else {
+                rest.push(r);
+            }
+        }
+        self.absorb(rest);
     }
 
     /// Default aggregation: merge worker stats; print violations found by workers; abnormal
